@@ -234,3 +234,75 @@ func EngineTwoClients(seed int64, d time.Duration, w int, noise uint) int {
 	must("Engine.Halt", func() { e.Halt(ctx) })
 	return n
 }
+
+// UCIRounds: the free-running driver with a per-round oracle. Each round sends one go (ended by its
+// depth limit, by stop, or both at about the same moment), waits for the answer, then uses
+// isready/readyok as a barrier and a short pause, and counts the bestmove lines of the round:
+// exactly one. (Runtime monitoring of "exactly one bestmove per go" where real parallelism matters.)
+func UCIRounds(seed int64, d time.Duration, w int) int {
+	r := rand.New(rand.NewSource(seed))
+	ctx, cancel := context.WithCancel(context.Background())
+	defer cancel()
+	e, opts := build(ctx, w, engine.Options{Depth: 0})
+	in := make(chan string)
+	drv, out := uci.NewDriver(ctx, e, in, opts...)
+	var mu sync.Mutex
+	best, ready := 0, 0
+	slow := r.Intn(3) == 0 // a slow reader lets the driver's output buffer fill up
+	go func() {
+		for l := range out {
+			if slow {
+				time.Sleep(50 * time.Microsecond)
+			}
+			mu.Lock()
+			if strings.HasPrefix(l, "bestmove") {
+				best++
+			}
+			if l == "readyok" {
+				ready++
+			}
+			mu.Unlock()
+		}
+	}()
+	get := func() (int, int) { mu.Lock(); defer mu.Unlock(); return best, ready }
+	send := func(l string) { must("the driver taking the line "+l, func() { in <- l }) }
+	deadline := time.Now().Add(d)
+	send("setoption name OwnBook value false")
+	n := 0
+	for time.Now().Before(deadline) {
+		b0, r0 := get()
+		send("position startpos moves " + strings.Join(lines[:1+r.Intn(len(lines)-1)], " "))
+		switch r.Intn(3) {
+		case 0:
+			send("go depth 1")
+			send("stop")
+		case 1:
+			send("go depth 2")
+			time.Sleep(time.Duration(r.Intn(300)) * time.Microsecond)
+			send("stop")
+		default:
+			send("go infinite")
+			time.Sleep(time.Duration(r.Intn(300)) * time.Microsecond)
+			send("stop")
+			send("stop")
+		}
+		send("isready")
+		must("readyok and the answer to the go", func() {
+			for {
+				b, rd := get()
+				if rd > r0 && b > b0 {
+					return
+				}
+				time.Sleep(20 * time.Microsecond)
+			}
+		})
+		time.Sleep(time.Duration(200+r.Intn(800)) * time.Microsecond)
+		if b, _ := get(); b != b0+1 {
+			panic(fmt.Sprintf("ORACLE: %d bestmove lines for one go (round %d)", b-b0, n))
+		}
+		n++
+	}
+	send("quit")
+	must("driver shutdown after quit", func() { <-drv.Closed() })
+	return n
+}
